@@ -26,6 +26,7 @@ FOCUS = {
  "sites": "At least one of the two changes must consist of TWO COOPERATING EDITS in different functions (or files) that each look fine alone -- e.g. a helper whose contract is slightly changed and a caller that relied on the old contract on one path only.",
  "sites_input": "The FIRST change must consist of TWO COOPERATING EDITS in different functions (or files) that each look fine alone -- e.g. a helper whose contract is slightly changed (return value, mutability of what it returns, units, inclusive/exclusive bound, default argument) and a caller that relied on the old contract on one path only. The SECOND change must need an UNUSUAL BUT LEGITIMATE INPUT OR CONFIGURATION to manifest (a boundary value, a tie, a zero, a repeated value, a particular size, a documented option or combination of options, an alternative public entry point that reaches the same functionality), so that ordinary inputs through the usual entry point behave correctly.",
  "fault_option": "The FIRST change must only manifest AFTER AN ERROR PATH OR A DEGENERATE CALL was taken earlier in the same process: an earlier call that legitimately fails or does nothing (a documented rejection, an exception on a bad or empty input, a missing name, an unreachable target, an empty result, a file that cannot be parsed) leaves something behind -- a global format or option not restored, a half-updated table, a flag or cache not reset, a partially registered object -- so that a LATER, perfectly valid call inside the property's scope misbehaves; the valid call alone, in a fresh process, must behave correctly. The SECOND change must manifest only through a DOCUMENTED OPTION, OPTIONAL ARGUMENT, OR ALTERNATIVE PUBLIC ENTRY POINT that reaches the same functionality (a keyword argument with a non-default value, a wrapper method on another class, an operator overload, a convenience function, a different but documented type for an argument), so that the usual entry point with default options behaves correctly.",
+ "magnitude_derived": "The FIRST change must depend on the MAGNITUDE OR FLOATING-POINT REPRESENTATION of otherwise ordinary values: an absolute tolerance where a relative one is needed (or the reverse), an exact float comparison, an integer truncation or rounding, a unit or scale assumption, accumulated rounding, a value that is only exact for small / integer / dyadic numbers -- so that inputs of one magnitude (small integers, coordinates near the origin, dates near 1970, short tracks) behave correctly while realistic inputs of another magnitude (projected map coordinates of several millions, timestamps of today, sub-millimetre or many-kilometre lengths, very long tracks) break the property. The SECOND change must manifest only when the object handed to the function is itself a DERIVED OBJECT produced by another public operation of the library -- a copy(), an extract or slice, a concatenation (+), a reversed or re-sorted track, a track read back from a file, a track converted to another coordinate system, a resampled or simplified track, a sub-network, a collection filtered on a box -- because the derived object shares, lacks or carries over some internal state (feature table, base point, identifiers, flags, cached values, object identity of the observations); the same values built from scratch must behave correctly.",
  "": "",
 }[focus]
 print(f"""You are helping to evaluate a verification harness. You work in a scratch git worktree of the pure-Python GPS trajectory library `tracklib` at `{W}` (a checkout of the project's current HEAD). Work ONLY inside `{W}` and `{OUT}`. Do not read, list or touch `/verif`, `/repo`, `/root/.vp` or any other `/tmp/seed*` directory: your work must be independent of everything there.
